@@ -110,6 +110,8 @@ def pOp (j : Json) : Option Op :=
   | some "addObjects" => some (.addObjects ns ((getArr j "objs").map pObj))
   | some "addObject" => some (.addObject ns (pObj (getField j "obj")))
   | some "compileMof" => some (.compileMofItems ns ((getArr j "prods").map pItem))
+  | some "compileSchema" => some (.compileSchemaClasses ns ((getArr j "files").map (fun f =>
+      if (getBool f "listed").getD true then SchemaFile.items ((getArr f "prods").map pItem) else SchemaFile.notListed)))
   | _ => none
 
 /-! output -/
